@@ -29,7 +29,8 @@ REQUIRED_MONITORS = ("sync.run", "target.reparsed", "outside.compared", "second-
                      "target.defaults-vs-truth.compared")
 ASSUMPTIONS = ["interfaces are in the common domain of the three formats (scalar / Optional / Literal types, every "
                "parameter has a default, no return entry), so C02's normalisations suffice",
-               "'code outside the named targets is unchanged' is decided on the AST (sync re-renders the whole file)"]
+               "'code outside the named targets is unchanged' is decided on the AST (sync re-renders the whole file), docstrings "
+               "modulo re-indentation (inspect.cleandoc); 'byte-identical on a second run' is decided on the bytes"]
 T = ("int", "float", "str", "bool", "literal")
 D = ("int", "negint", "float", "bool", "str", "strspace", "zero", "zero", "strodd", "strbad")  # incl. falsy defaults (0, 0.0,
 # False) and strings made of delimiter characters (quotes, backslash, '#', '%', braces, ...)
@@ -145,9 +146,23 @@ def parse_target(kind, src, name):
     return parser(deepcopy(node))
 
 
+class _CleanDocstrings(ast.NodeTransformer):
+    """docstrings modulo re-indentation (sync re-renders the whole file and re-indents docstrings: formatting, not code)"""
+
+    def generic_visit(self, node):
+        super().generic_visit(node)
+        body = getattr(node, "body", None)
+        if isinstance(node, (ast.Module, ast.ClassDef, ast.FunctionDef, ast.AsyncFunctionDef)) and body and isinstance(
+                body[0], ast.Expr) and isinstance(body[0].value, ast.Constant) and isinstance(body[0].value.value, str):
+            import inspect
+
+            body[0].value.value = inspect.cleandoc(body[0].value.value)
+        return node
+
+
 def outside_dump(src, name):
     """dump of every top-level / class-level node other than the target"""
-    tree = ast.parse(src)
+    tree = _CleanDocstrings().visit(ast.parse(src))
     parts = name.split(".")
     out = []
     for n in tree.body:
@@ -186,6 +201,11 @@ def run_case(ctx, P, stream, idx):
             src, names[k] = render(k, ir, method)
             if k == "function" and k == truth and ctx.rng(stream, idx, "partial").random() < 0.4:
                 src = undocument_some(ctx.rng(stream, idx, "partial2"), src)
+            r_md = ctx.rng(stream, idx, "moddoc", k)
+            if r_md.random() < 0.3:
+                # a module docstring on top of the file (code outside the named targets: it must not change, run after run)
+                src = r_md.choice(('"""Settings of the trainer"""\n\n', '"""\nSettings of the trainer\n"""\n\n',
+                                   '"""\nSettings of the trainer\n\nSecond paragraph.\n"""\n\n')) + src
             if states[k] == "empty":
                 src = ""
             elif states[k] == "absent":
